@@ -252,6 +252,10 @@ func (c *Ctx) oblige(kind, name, label string, props []string, goal string, pos 
 
 func (c *Ctx) safety(fr *Frame, what string, in ssa.Instruction, goal string) {
 	name := fmt.Sprintf("%s#safe{%s}", c.relName(fr.fn), what)
+	if top := c.topFrame; top != nil && top.con != nil && top.con.NoSafety {
+		c.assume(goal)
+		return
+	}
 	// a run-time panic is allowed where the function's own 'panics when' clause holds
 	if top := c.topFrame; top != nil && top.con != nil && top.con.Panics != nil && c.dry == 0 && c.pure == 0 && goal != "true" {
 		env := &Env{c: c, fr: top, fn: top.fn, st: top.old, old: top.old, vars: map[string]*Val{}, fd: top.fd}
